@@ -7,11 +7,14 @@
 //!  (3) step iterator vs trace: at every clock t the reported stack has exactly b0[t] elements, its top
 //!      16 equal the stack columns of row t, fmp and ctx equal the system columns of row t; stepping
 //!      back from the end reproduces the forward states;
-//!  (4) `clk` pushes the clock value.
+//!  (4) `clk` pushes the clock value;
+//!  (5) decorator-only instructions (adv.push_mapval, adv.push_mapvaln, adv.insert_mem) behave the same
+//!      under debug-mode and release assembly.
 //! Prints `FAIL <program> <kind> clk=<t> <detail>` (first 3 per kind and program), exit 1 on failure.
 use miden_air::trace::{CLK_COL_IDX, CTX_COL_IDX, FMP_COL_IDX, STACK_TRACE_OFFSET, stack::B0_COL_IDX};
 use miden_assembly::Assembler;
-use miden_processor::{execute, execute_iter, DefaultHost, ExecutionOptions, ExecutionTrace, Program, StackInputs, VmState};
+use miden_processor::{crypto::RpoDigest, execute, execute_iter, AdviceInputs, DefaultHost, ExecutionOptions, ExecutionTrace, MemAdviceProvider, Program, StackInputs, VmState};
+use vm_core::Felt;
 use std::collections::HashMap;
 use winter_prover::Trace;
 
@@ -21,6 +24,7 @@ fn col(t: &ExecutionTrace, c: usize, n: usize) -> Vec<u64> {
 }
 
 fn main() {
+    std::panic::set_hook(Box::new(|_| {}));
     let progs: Vec<(&str, &str, Vec<u64>)> = vec![
         ("overflow", "begin push.1 push.2 push.3 add add drop end", (1..=16).map(|x| 100 + x).collect()),
         ("deep-inputs", "begin dup.3 movup.5 swap drop drop end", (1..=16).map(|x| 200 + x).collect()),
@@ -109,6 +113,52 @@ fn main() {
             }
         }
     }
-    println!("SUMMARY programs={} checks={checks} failures={fails}", progs.len());
+    // (5) instructions that compile to a decorator only (zero cycles): debug-mode assembly must not
+    //     change what the program does (advice injectors still run, same outputs)
+    let adv_cases: Vec<(&str, &str, Vec<u64>, Vec<([u64; 4], Vec<u64>)>)> = vec![
+        ("adv.push_mapval", "begin adv.push_mapval dropw adv_push.4 swapw dropw end", vec![1, 2, 3, 4], vec![([1, 2, 3, 4], vec![8, 7, 6, 5])]),
+        ("adv.push_mapvaln-mid-span", "begin push.0 push.0 add drop adv.push_mapvaln dropw adv_push.6 movup.6 drop movup.6 drop movup.6 drop movup.6 drop movup.6 drop movup.6 drop end", vec![1, 2, 3, 4], vec![([1, 2, 3, 4], vec![11, 12, 13, 14, 15])]),
+        ("adv.insert_mem+push_mapval", "begin mem_storew.2 dropw mem_storew.3 push.2.4 movdn.4 movdn.4 adv.insert_mem adv.push_mapval dropw adv_loadw swapw adv_loadw swapw end", vec![8, 7, 6, 5, 4, 3, 2, 1], vec![]),
+    ];
+    for (name, src, stack, map) in &adv_cases {
+        let run = |debug: bool| -> Result<Vec<u64>, String> {
+            let p = Assembler::default().with_debug_mode(debug).compile(*src).map_err(|e| format!("asm: {e}"))?;
+            let adv = AdviceInputs::default().with_map(map.iter().map(|(k, v)| (RpoDigest::try_from(*k).unwrap(), v.iter().map(|&x| Felt::new(x)).collect::<Vec<_>>())));
+            let host = DefaultHost::new(MemAdviceProvider::from(adv));
+            execute(&p, StackInputs::try_from_values(stack.clone()).unwrap(), host, ExecutionOptions::default())
+                .map(|t| t.stack_outputs().stack().to_vec()).map_err(|e| format!("{e}"))
+        };
+        checks += 1;
+        let (rel, dbg) = (run(false), run(true));
+        if rel != dbg {
+            fails += 1;
+            println!("FAIL {name} debug-assembly-differs clk=0 release {:?} vs debug {:?}", rel, dbg);
+        }
+    }
+    // (6) turning around at the first state must not panic: next() (clock 0) followed by back()
+    {
+        checks += 1;
+        let p = Assembler::default().compile("begin push.1 drop end").unwrap();
+        let r = std::panic::catch_unwind(|| {
+            let mut it = execute_iter(&p, StackInputs::default(), DefaultHost::default());
+            let first = it.next();
+            let b = it.back();
+            let again = it.next();
+            (first.map(|s| s.map(|v| v.clk).ok()), b.map(|v| v.clk), again.map(|s| s.map(|v| v.clk).ok()))
+        });
+        if r.is_err() { fails += 1; println!("FAIL turnaround-at-clk-0 iterator-panic clk=0 next() then back() panics"); }
+    }
+    // (7) debug-mode assembly must accept what release assembly accepts (a decorator in front of exec)
+    {
+        checks += 1;
+        let src = "proc.foo push.1 drop end begin debug.stack exec.foo end";
+        let rel = std::panic::catch_unwind(|| Assembler::default().compile(src).is_ok());
+        let dbg = std::panic::catch_unwind(|| Assembler::default().with_debug_mode(true).compile(src).is_ok());
+        match (rel, dbg) {
+            (Ok(a), Ok(b)) if a == b => {}
+            (a, b) => { fails += 1; println!("FAIL debug.stack-before-exec debug-assembly-panics clk=0 release {:?} vs debug {:?}", a.map_err(|_| "panic"), b.map_err(|_| "panic")); }
+        }
+    }
+    println!("SUMMARY programs={} checks={checks} failures={fails}", progs.len() + adv_cases.len() + 2);
     std::process::exit(if fails > 0 { 1 } else { 0 });
 }
